@@ -45,7 +45,6 @@ Inductive case :=
          (rsa : bool) (rsl : N) (rsact : laction) (mimes : list bytes)
          (p1 p2 p3 p4 : rspec)
          (reqh : headers) (body : bytes) (ops : list hop)
-         (tracked : list bytes)                       (* header keys that are compared *)
          (o_invoked : bool) (o_read : bytes)
          (o_intr : option (iaction * N))
          (o_trace : list dev)
@@ -98,19 +97,29 @@ Fixpoint trace_eqb (tracked : list bytes) (m o : list dev) : bool :=
   | _, _ => false
   end.
 
+(* header keys that are compared: those the handler mentions, and Content-Length *)
+Fixpoint tracked_of (ops : list hop) : list bytes :=
+  match ops with
+  | [] => [K_CL]
+  | HSet k _ :: r | HAdd k _ :: r | HDel k :: r => k :: tracked_of r
+  | _ :: r => tracked_of r
+  end.
+
 Definition model_of (c : case) : result :=
   match c with
-  | Case sk eng rqa rql rqact rsa rsl rsact mimes p1 p2 p3 p4 reqh body ops _ _ _ _ _ _ _ _ _ =>
+  | Case sk eng rqa rql rqact rsa rsl rsact mimes p1 p2 p3 p4 reqh body ops _ _ _ _ _ _ _ _ =>
     wrap_handler (mk_config eng rqa rql rqact rsa rsl rsact mimes p1 p2 p3 p4 reqh) sk body ops
   end.
 
 Definition ok (c : case) : bool :=
   match c with
-  | Case sk eng rqa rql rqact rsa rsl rsact mimes p1 p2 p3 p4 reqh body ops tracked
+  | Case sk eng rqa rql rqact rsa rsl rsact mimes p1 p2 p3 p4 reqh body ops
          o_invoked o_read o_intr o_trace o_status o_headers o_body o_infos =>
+    let tracked := tracked_of ops in
     let r := model_of c in
     let cl := client_of sk (r_ds r) in
-    let ctracked := filter (fun k => negb (bytes_eqb k K_CL)) tracked in
+    (* on a real connection Content-Length is net/http's own, and a 304 never carries Content-Type *)
+    let ctracked := filter (fun k => negb (bytes_eqb k K_CL) && negb ((cl_status cl =? 304) && bytes_eqb k K_CT)) tracked in
     Bool.eqb (r_invoked r) o_invoked
     && bytes_eqb (r_read r) o_read
     && intr_obs_eqb (r_intr r) o_intr
